@@ -280,3 +280,148 @@ def replay_history(method, dm, gv, nac, scaled=False):
     bad = [r for r in res if r["result"] and r["result"].get("violations")]
     return {"reproduced": bool(bad), "history": "Phonopy state dm=%s gv=%s nac=%s%s; then %s; then query" % (dm, gv, nac, ", frequency_scale_factor=1.5" if scaled else "", method),
             "real_code": res, "expected": "answers equal those of an object freshly built from the final state"}
+
+
+def copy_forwards_options(run):
+    """Phonopy._copy (used by copy() and twice by ph2ph): every option of Phonopy.__init__ that __init__ stores unchanged
+    in an attribute is forwarded to the new object from that attribute (supercell_matrix / log_level from the argument
+    when one is given).  The option -> attribute table is read off __init__ on every run."""
+    mod = pyexec.load(AF)
+    init = mod.method("Phonopy", "__init__")
+    params = [a.arg for a in init.args.args[1:]]
+    stored = {}
+    for node in ast.walk(init):
+        if isinstance(node, ast.Assign) and len(node.targets) == 1 and isinstance(node.targets[0], ast.Attribute) \
+                and isinstance(node.targets[0].value, ast.Name) and node.targets[0].value.id == "self" \
+                and isinstance(node.value, ast.Name) and node.value.id in params:
+            stored.setdefault(node.value.id, node.targets[0].attr)
+    if len(stored) < 5:
+        raise CheckerError("Phonopy.__init__: option -> attribute table could not be read (%s)" % stored)
+    m = mod.method("Phonopy", "_copy")
+    pref = AF + ":Phonopy._copy"
+    n0 = len(run.sink.obls)
+    for scen in ("same supercell", "other supercell"):
+        st = PState()
+        attrs = {attr: Opaque("value of option %s" % p) for p, attr in stored.items()}
+        attrs["_unitcell"] = Opaque("unit cell")
+        self_ref = st.new(Record("Phonopy", attrs))
+        cap = {}
+
+        def mk(ex, st_, args, kwargs, cap=cap):
+            cap["args"], cap["kw"], cap["pc"] = list(args), dict(kwargs), list(st_.pc)
+            return st_.new(Record("Phonopy", {}))
+        ex = PyExec(mod, run.sink, pref + "[%s]" % scen, hooks={"new:Phonopy": mk}, opaque_unknown=True, split=True)
+        other = Opaque("supercell matrix given to _copy")
+        ex.call_function(st, m, [], {"supercell_matrix": None if scen == "same supercell" else other}, self_ref=self_ref, cls="Phonopy")
+        if "kw" not in cap:
+            raise CheckerError("Phonopy._copy: no Phonopy object is constructed")
+        for p, attr in sorted(stored.items()):
+            if p in ("unitcell",):
+                continue
+            got = cap["kw"].get(p, cap["args"][params.index(p)] if params.index(p) < len(cap["args"]) else None)
+            want = attrs[attr]
+            if p == "supercell_matrix" and scen == "other supercell":
+                want = other
+            if p in ("log_level", "nac_params"):
+                continue            # log_level is chosen by the caller of _copy; data such as NAC parameters are documented not to be copied
+            run.sink.add(ex.prefix, "call-pre", cap["pc"], z3.BoolVal(got is want), replay=lambda model: replay_copy(),
+                         meta={"label": "the copy is constructed with this object's option '%s' (attribute %s); got %r" % (p, attr, got)})
+    run.functions.append({"file": AF, "function": "Phonopy._copy", "line": m.lineno, "sha1": mod.sha(m), "obligations": len(run.sink.obls) - n0})
+
+
+def replay_copy():
+    from pvc import creplay
+    import json
+    code = r'''
+import json, inspect
+import phonopy.api_phonopy as api
+got = {}
+class Fake:
+    def __init__(self, *a, **k): got.update(k); got["__args__"] = a
+real = api.Phonopy
+class Dyn(real):
+    def __getattr__(self, n): return ("attr", n)
+o = Dyn.__new__(Dyn)
+src = inspect.getsource(real.__init__)
+names = [p for p in inspect.signature(real.__init__).parameters if p != "self"]
+import re
+stored = {}
+for p in names:
+    m = re.search(r"self\.(_\w+) = %s\n" % p, src)
+    if m: stored[p] = m.group(1)
+for p, attr in stored.items():
+    setattr(o, attr, ("value", p))
+o._unitcell = ("value", "unitcell")
+api.Phonopy = Fake
+try:
+    real._copy(o)
+finally:
+    api.Phonopy = real
+missing = [p for p, attr in stored.items() if p not in ("unitcell", "log_level", "nac_params") and got.get(p) != ("value", p)]
+print(json.dumps({"options_not_forwarded": missing}))
+'''
+    rc, out, err = creplay.py_eval(code)
+    if rc != 0:
+        return {"reproduced": False, "reason": err[-400:]}
+    r = json.loads(out.strip().splitlines()[-1])
+    return {"reproduced": bool(r["options_not_forwarded"]), "real_code": r, "expected": "every stored constructor option is forwarded by _copy"}
+
+
+ATF = "phonopy/structure/atoms.py"
+
+
+def atoms_getters_return_copies(run):
+    """PhonopyAtoms array getters (cell, positions, scaled_positions, numbers_with_shifts, masses, magnetic_moments; `symbols`
+    is a Python list returned by slicing and is not modelled):
+    the value handed out does not share its buffer with the internal array (ownership model of pyexec: .copy(), np.array
+    and slicing a list give a fresh buffer; np.asarray / views share it)."""
+    mod = pyexec.load(ATF)
+    pref = ATF + ":PhonopyAtoms"
+    n0 = len(run.sink.obls)
+    getters = [n for n in mod.classes["PhonopyAtoms"].body if isinstance(n, ast.FunctionDef)
+               and any(isinstance(d, ast.Name) and d.id == "property" for d in n.decorator_list)
+               and n.name in ("cell", "positions", "scaled_positions", "numbers_with_shifts", "masses", "magnetic_moments")]
+    if len(getters) < 6:
+        raise CheckerError("PhonopyAtoms: array getters not found (%s)" % [g.name for g in getters])
+    for g in getters:
+        st = PState()
+        internal = {k: Opaque("internal " + k) for k in ("_cell", "_scaled_positions", "_numbers_with_shifts", "_masses", "_magnetic_moments", "_symbols", "_numbers")}
+        self_ref = st.new(Record("PhonopyAtoms", dict(internal)))
+        ex = PyExec(mod, run.sink, pref + "." + g.name, opaque_unknown=True, split=True)
+        outs = ex.call_function(st, g, [], self_ref=self_ref, cls="PhonopyAtoms")
+        for (s2, fl, v) in outs:
+            if fl != "return" or v is None:
+                continue
+            bufs = {o_.buf for o_ in internal.values()}
+            shares = isinstance(v, Opaque) and v.buf in bufs
+            run.sink.add(ex.prefix, "ownership", list(s2.pc), z3.BoolVal(not shares), replay=(lambda model, nm=g.name: replay_getter(nm)),
+                         meta={"label": "the array returned by PhonopyAtoms.%s does not alias internal state" % g.name})
+    run.functions.append({"file": ATF, "function": "PhonopyAtoms array getters", "line": getters[0].lineno, "sha1": "".join(mod.sha(g)[:8] for g in getters),
+                          "obligations": len(run.sink.obls) - n0})
+
+
+def replay_getter(name):
+    from pvc import creplay
+    import json
+    code = r'''
+import json
+import numpy as np
+from phonopy.structure.atoms import PhonopyAtoms
+a = PhonopyAtoms(symbols=["Na", "Cl"], cell=np.eye(3) * 4.0, scaled_positions=[[0, 0, 0], [0.5, 0.5, 0.5]], magnetic_moments=[1.0, -1.0])
+before = np.array(getattr(a, NAME), dtype=object if NAME == "symbols" else None).copy()
+v = getattr(a, NAME)
+try:
+    if NAME == "symbols":
+        v[0] = "K"
+    else:
+        v += 1
+except Exception:
+    pass
+after = np.array(getattr(a, NAME), dtype=object if NAME == "symbols" else None)
+print(json.dumps({"internal_state_changed_through_returned_value": bool((before != after).any())}))
+'''.replace("NAME", repr(name))
+    rc, out, err = creplay.py_eval(code)
+    if rc != 0:
+        return {"reproduced": False, "reason": err[-400:]}
+    r = json.loads(out.strip().splitlines()[-1])
+    return {"reproduced": r["internal_state_changed_through_returned_value"], "real_code": r, "expected": "mutating the returned value leaves the object unchanged"}
